@@ -37,4 +37,13 @@ PROPS_ADD = {
         "note": "Trusted: harness-side timestamp oracle (one counter, so acknowledged-before implies smaller version), response-origin check that keeps C22's wrong-response defect from being charged to C23 (such outcomes are treated as unknown and counted in probes.c22_wrong_response_met).",
         "design_ref": "7/C23", "assumptions": E4_ASSUME,
     },
+    "C28": {
+        "engine": "clustersim", "level": "exploration", "budget": {"quick": 25, "thorough": 600},
+        "title": "Client two-phase commit is atomic across regions",
+        "technique": "deterministic simulation: the real raftstore/client (Mutate/TwoPhaseCommit, CheckTxnStatus, ResolveLocks, Get, Scan) over in-process TinyKv shims on 1-3 real stores with 2-3 regions; an RPC fault (fail before delivery / deliver and lose the response) is injected at every (method, region, attempt) position of the prewrite/commit sequence of each generated mutation set; leader moves before and inside the protocol in the replicated variant",
+        "rule": "case = mutation sets (1-3 regions, 1-2 keys per region) x every RPC fault position + no-fault run, executed as consecutive transactions; distinct = distinct event-trace hash; non-trivial = at least two transactions ran and at least one injected RPC fault fired",
+        "level_text": "For each generated mutation set every RPC position of the protocol is enumerated with both fault modes (the enumeration is exhaustive per mutation set; mutation sets, layouts and leader moves are sampled). Oracle after resolution: all mutations visible at the commit version or none; none if the primary commit never applied, all if it did; Get and Scan agree.",
+        "note": "Trusted: the verif-tag constructor client.NewWithStoreClients, the shim (calls kv.Service in-process), the apply observer that decides whether the primary commit applied. In the replicated variant mutation sets span at most 2 regions because the client visits secondary regions in Go map order (unpinnable nondeterminism).",
+        "design_ref": "7/C28", "assumptions": E4_ASSUME,
+    },
 }
